@@ -83,3 +83,52 @@ func (s *Spec) RootObject() *Spec {
 	}
 	return nil
 }
+
+// IsRecursive reports whether some object of the scope can reach itself through references.
+func IsRecursive(s *Spec) bool {
+	found := false
+	s.Walk(func(n *Spec) {
+		if n.Kind == KScope {
+			Link(n)
+		}
+	})
+	var visit func(n *Spec, stack map[*Spec]bool)
+	visit = func(n *Spec, stack map[*Spec]bool) {
+		if n == nil || found {
+			return
+		}
+		switch n.Kind {
+		case KRef:
+			if n.resolved != nil {
+				if stack[n.resolved] {
+					found = true
+					return
+				}
+				stack[n.resolved] = true
+				visit(n.resolved, stack)
+				delete(stack, n.resolved)
+			}
+		case KList:
+			visit(n.Item, stack)
+		case KMap:
+			visit(n.Key, stack)
+			visit(n.Val, stack)
+		case KObject:
+			for i := range n.Props {
+				visit(n.Props[i].Type, stack)
+			}
+		case KOneOfStr, KOneOfInt:
+			for i := range n.Members {
+				visit(n.Members[i].Type, stack)
+			}
+		case KScope:
+			if r := n.RootObject(); r != nil {
+				stack[r] = true
+				visit(r, stack)
+				delete(stack, r)
+			}
+		}
+	}
+	visit(s, map[*Spec]bool{})
+	return found
+}
